@@ -335,13 +335,20 @@ class UidSeam:
             self._orig = None
 
 
-def make_args(**options):
+def make_args(_config_file=None, **options):
+    """options as given on the command line; `_config_file`: options given in the config file instead (lower precedence than
+    contract / function annotations)"""
     from halmos.config import ConfigSource, default_config
 
     base = dict(solver_command="simsolver", no_status=True, verbose=0, solver_timeout_branching=0,
                 solver_timeout_assertion=60, solver_threads=2, loop=2, storage_layout="solidity")
     base.update(options)
-    return default_config().with_overrides(ConfigSource.command_line, **base)
+    cfg = default_config()
+    if _config_file:
+        for k in _config_file:
+            base.pop(k, None)
+        cfg = cfg.with_overrides(ConfigSource.config_file, **_config_file)
+    return cfg.with_overrides(ConfigSource.command_line, **base)
 
 
 def make_contract_ctx(args, name, file, cj, funsigs, bom):
